@@ -128,6 +128,12 @@ class ListSpec(hist.Spec):
         # a repetition replaced by another repetition of the same parent (the element moves)
         for i, j in ((1, 0), (0, 1), (2, 0), (0, 2)):
             ops.append(('setidx_own', self.names[1], i, j))
+        # the proxy of a child of the same parent as the value: it stands for the text of the first repetition
+        for i in (0, 1, 2):
+            ops.append(('setidx_ownproxy', self.names[1], i))
+        if self.kind == 'segment' and self.level != STRICT and len(self.names) > 1:
+            ops.append(('set_otherproxy', self.names[0], self.names[1]))
+            ops.append(('set_otherproxy', self.names[1], self.names[0]))
         for n in self.names:
             ops.append(('set_via_proxy', n, self.values[n][0]))
             if n in self.longnames:
@@ -173,6 +179,10 @@ class ListSpec(hist.Spec):
         elif k == 'setidx_own':
             reps = getattr(r, op[1])
             reps[op[2]] = reps[op[3]]           # IndexError when either repetition is absent
+        elif k == 'setidx_ownproxy':
+            getattr(r, op[1])[op[2]] = getattr(r, op[1])
+        elif k == 'set_otherproxy':
+            setattr(r, op[1], getattr(r, op[2]))
         elif k == 'set_via_proxy':
             getattr(r, op[1].lower()).value = op[2]
         elif k == 'copy_el_long':
@@ -277,6 +287,12 @@ class ListSpec(hist.Spec):
                 e[pi] = e[pj]
                 del e[pj]
             return m, 'ok'
+        if k in ('setidx_ownproxy', 'set_otherproxy'):
+            src = op[1] if k == 'setidx_ownproxy' else op[2]
+            p = self._nth(e, src, 0)
+            if p is None:
+                return model, None          # the proxy of an absent child: outcome unspecified, the list is unchanged
+            return self._ret(m, model, put(op[1], op[2] if k == 'setidx_ownproxy' else 0, e[p][1]))
         if k in ('copy', 'copy_el', 'copy_el_long'):
             p = self._nth(m['donor'], op[1], 0)
             if p is None:
